@@ -219,14 +219,14 @@ def merge(pid, tier, seed, cfg, frags, wall, violations, extra_cov=None):
                     d["samples"].append(s)
     evals = sum(c["evaluations"] for c in checks.values())
     distinct = sum(len(c["hashes"]) for c in checks.values())
-    rule = " || ".join("%s: %s" % (n, c["rule"]) for n, c in sorted(checks.items()) if c["rule"])
+    rule = "\n".join("[%s] %s" % (n, c["rule"]) for n, c in sorted(checks.items()) if c["rule"])
     samples = []
     for n, c in sorted(checks.items()):
         for s in c["samples"][:2]:
             samples.append({"check": n, "case": s})
     sub = {}
     for n, c in sorted(checks.items()):
-        sub[n] = {"evaluations": c["evaluations"], "nontrivial": c["nontrivial"], "distinct_nontrivial": len(c["hashes"]),
+        sub[n] = {"rule": c["rule"], "evaluations": c["evaluations"], "nontrivial": c["nontrivial"], "distinct_nontrivial": len(c["hashes"]),
                   "classes": dict(sorted(c["classes"].items())), "exhaustive": c["exhaustive"]}
     cov = {
         "evaluations": evals,
